@@ -87,6 +87,9 @@ func caseGen() *rapid.Generator[Case] {
 		c := Case{Script: sg.Draw(t, "script"), Deco: dg.Draw(t, "deco")}
 		c.Align = rapid.SliceOfN(rapid.IntRange(0, 3), 0, 7).Draw(t, "align")
 		c.AlignByCallback = rapid.IntRange(0, 5).Draw(t, "by-callback") == 0
+		if !c.AlignByCallback && rapid.IntRange(0, 3).Draw(t, "props?") == 0 {
+			c.Props = gen.PropHistGen(8).Draw(t, "props")
+		}
 		if rapid.IntRange(0, 3).Draw(t, "also?") == 0 {
 			c.Also = rapid.SliceOfN(rapid.SampledFrom([]string{"markdown", "markdown!", "csv!", "json", "html!", "texttable", "texttable!", "none!"}), 1, 3).Draw(t, "also")
 		}
